@@ -15,7 +15,10 @@ sys.path.insert(0, os.path.dirname(os.path.abspath(__file__)))
 import queries as Q      # noqa
 
 # None: the node has no path attribute at all (it resolves as 'None', and error messages must still be built)
-NAMESETS = [["r", "a", "A", "b", "c"], ["r", "a*", "a", "?", "a.b"], ["top", "x", "x", "X", "y"], ["r", "a", None, "b", None]]
+NAMESETS = [["r", "a", "A", "b", "c"], ["r", "a*", "a", "?", "a.b"], ["top", "x", "x", "X", "y"], ["r", "a", None, "b", None],
+            # names made of characters that other pattern languages treat specially (index 4: used by the META stage only)
+            ["r", "a[0]", "a0", "[!a]", "a+"]]
+META = ["a[0]", "a0", "[!a]", "a[0]*", "?[0]", "[*", "a+", "a?", "*"]
 
 
 def mk(shape, names, sep, attr):
@@ -260,7 +263,7 @@ def search(spec):
     total = 0
     for nn in range(1, spec.get("nodes", 4) + 1):
         for sh in Q.shapes(nn):
-            for names in range(len(NAMESETS)):
+            for names in range(4):
                 # a separator of more than one character as well (first name set only, to keep the cost)
                 for sep, attr in (("/", "name"), ("|", "tag")) + ((("::", "name"),) if names == 0 else ()):
                     if prop == "C07":
@@ -305,6 +308,25 @@ def search(spec):
                                 bad = "harness error %s: %s" % (type(e).__name__, e)
                             if bad:
                                 return {"found": True, "case": case, "result": bad, "evaluations": total}
+    # every character other than * and ? stands for itself (statement): names and patterns with [ ] ! + in them
+    for nn in range(1, 5):
+        for sh in Q.shapes(nn):
+            for n_ in (1, 2):
+                for t in itertools.product(META, repeat=n_):
+                    if prop == "C07" and any(wild(x) for x in t):
+                        continue
+                    for path in ("/".join(t), "/r/" + "/".join(t)):
+                        for ic in (False, True):
+                            for relax in (False, True):
+                                case = {"property": prop, "shape": sh, "names": 4, "sep": "/", "attr": "name", "start": 0, "ic": ic,
+                                        "relax": relax, "path": path, "history": []}
+                                total += 1
+                                try:
+                                    bad = run_case(case)
+                                except Exception as e:      # noqa
+                                    bad = "harness error %s: %s" % (type(e).__name__, e)
+                                if bad:
+                                    return {"found": True, "case": case, "result": bad, "evaluations": total}
     return {"found": False, "evaluations": total, "nontrivial": total}
 
 
